@@ -14,6 +14,8 @@ import (
 	"go/token"
 	"os"
 	"strings"
+
+	"golang.org/x/tools/go/ast/astutil"
 )
 
 var sites int
@@ -63,6 +65,9 @@ func main() {
 	fmt.Printf("sites=%d\n", sites)
 	if sites == 0 {
 		os.Exit(3)
+	}
+	if *op == "wraperr" {
+		astutil.AddNamedImport(fset, f, "zzfmt", "fmt")
 	}
 	var sb strings.Builder
 	if err := format.Node(&sb, token.NewFileSet(), stripPos(f)); err != nil {
@@ -389,6 +394,36 @@ func mutBlock(b *ast.BlockStmt, op string) {
 				cur.Else = &ast.BlockStmt{List: def.Body}
 			}
 			b.List[i] = head
+			sites++
+		}
+	case "wraperr":
+		// if err != nil { ...; return X, err }  ->  return X, zzfmt.Errorf("ctx: %w", err)
+		for _, s := range b.List {
+			is, ok := s.(*ast.IfStmt)
+			if !ok || len(is.Body.List) == 0 {
+				continue
+			}
+			be, ok := stripParen(is.Cond).(*ast.BinaryExpr)
+			if !ok || be.Op != token.NEQ {
+				continue
+			}
+			ex, ok1 := be.X.(*ast.Ident)
+			ny, ok2 := be.Y.(*ast.Ident)
+			if !ok1 || !ok2 || ny.Name != "nil" || ex.Name != "err" {
+				continue
+			}
+			rs, ok := is.Body.List[len(is.Body.List)-1].(*ast.ReturnStmt)
+			if !ok || len(rs.Results) == 0 {
+				continue
+			}
+			last, ok := rs.Results[len(rs.Results)-1].(*ast.Ident)
+			if !ok || last.Name != "err" {
+				continue
+			}
+			rs.Results[len(rs.Results)-1] = &ast.CallExpr{
+				Fun:  &ast.SelectorExpr{X: ast.NewIdent("zzfmt"), Sel: ast.NewIdent("Errorf")},
+				Args: []ast.Expr{&ast.BasicLit{Kind: token.STRING, Value: "\"ctx: %w\""}, ast.NewIdent("err")},
+			}
 			sites++
 		}
 	case "unelse":
